@@ -114,12 +114,16 @@ def zero_relative(rep: Report, prog: Program, f: FuncInfo) -> int:
     tparam = f.positional_params()[0]
     # (a) rebinding through default_to before unification
     rebinds = []
+    # the operand list under another name (`ts = tensors`, e.g. the parameter of a helper that was pasted back): the rebinding may
+    # go through the copy, provided the original name is not read again afterwards
+    aliases = {tparam} | {n.targets[0].id for n in own_nodes(f.node) if isinstance(n, ast.Assign) and len(n.targets) == 1 and isinstance(n.targets[0], ast.Name)
+                          and isinstance(n.value, ast.Name) and n.value.id == tparam}
     for n in own_nodes(f.node):
-        if isinstance(n, ast.Assign) and len(n.targets) == 1 and isinstance(n.targets[0], ast.Name) and n.targets[0].id == tparam \
+        if isinstance(n, ast.Assign) and len(n.targets) == 1 and isinstance(n.targets[0], ast.Name) and n.targets[0].id in aliases \
                 and isinstance(n.value, (ast.ListComp, ast.GeneratorExp)) and len(n.value.generators) == 1:
             g = n.value.generators[0]
             elt = n.value.elt
-            if norm(g.iter) == tparam and not g.ifs and isinstance(elt, ast.Call) and callee_last(elt) == 'default_to' \
+            if norm(g.iter) == n.targets[0].id and not g.ifs and isinstance(elt, ast.Call) and callee_last(elt) == 'default_to' \
                     and norm(elt.func.value) == norm(g.target) and elt.args and (names_in(elt.args[0]) & zeros):
                 rebinds.append(n)
     unify_nodes = [n for n, nd in cfg.nodes.items() if nd.stmt is not None and any(isinstance(x, ast.Call) and callee_last(x) == 'unify' for x in ast.walk(nd.expr if nd.kind == 'test' and nd.expr is not None else nd.stmt) if nd.kind in ('test', 'stmt'))]
@@ -128,6 +132,13 @@ def zero_relative(rep: Report, prog: Program, f: FuncInfo) -> int:
         rb = cfg.node_of(rebinds[0])
         dom = cfg.dominators()
         ok = all(rb in dom.get(u, set()) for u in unify_nodes)
+        rebound = rebinds[0].targets[0].id
+        if ok and rebound != tparam:
+            stale = aliases - {rebound}
+            later = set(cfg.reachable([rb])) - {rb}
+            ok = not any(isinstance(x, ast.Name) and isinstance(x.ctx, ast.Load) and x.id in stale
+                         for m in later for e in [cfg.nodes[m].expr if cfg.nodes[m].kind == 'test' else cfg.nodes[m].stmt] if e is not None
+                         for x in (ast.walk(e) if cfg.nodes[m].kind in ('test', 'stmt', 'return', 'for', 'raise', 'assert') else []))
     rep.ob(rule, f.fq(), f"{tparam} = [t.default_to(zero.item()) for t in {tparam}] dominates every unify()", f.loc(rebinds[0]) if rebinds else f.loc(), ok,
            'every operand is re-expressed with the semiring zero as its default before patterns are intersected' if ok else
            'operands reach axis unification with their own defaults: a default different from the semiring zero would be treated as zero')
